@@ -327,8 +327,9 @@ Proof.
   induction l as [|t l IH]; intro k; cbn zeta.
   - cbn [fold_left length]. rewrite !count_if_nil. cbn. lia.
   - cbn [fold_left]. specialize (IH (step_counters k t)). cbn zeta in IH. destruct IH as [I1 [I2 [I3 I4]]].
-    rewrite I1, I2, I3, I4. rewrite !count_if_cons. unfold step_counters, m_exec, m_cign.
-    destruct (should_run gf nf t); [destruct (m_ign t)|]; cbn; lia.
+    rewrite I1, I2, I3, I4. rewrite !count_if_cons. cbn [length]. rewrite Nat2N.inj_succ. unfold step_counters, m_exec, m_cign.
+    destruct (should_run gf nf t); [destruct (m_ign t)|];
+      cbn [c_tests c_run c_ign c_filt count_test count_run count_ignored count_filtered b2n andb negb]; lia.
 Qed.
 
 Lemma occ_app e a b : occurrences e (a ++ b) = occurrences e a + occurrences e b.
@@ -373,8 +374,364 @@ Proof.
     cbn [events_of]. rewrite <- !app_assoc.
     assert (T : forall w, balanced_from n WGroup (test_events t ++ w) = balanced_from n WGroup w).
     { intro w. unfold test_events. destruct (should_run gf nf t); [|reflexivity].
-      destruct (m_ign t); cbn; rewrite Ht; cbn; [reflexivity|]. rewrite Nat.eqb_refl. reflexivity. }
+      destruct (m_ign t); cbn [app balanced_from]; rewrite Ht; cbn [andb]; [reflexivity|]. rewrite Nat.eqb_refl. reflexivity. }
     destruct gs; cbn [app balanced_from]; rewrite ?Ht; cbn [andb]; rewrite T;
       (destruct (end_of_group t l); cbn [app balanced_from]; exact IH).
 Qed.
 End RunLoop.
+
+(* ================================================================== Part D: the runner *)
+Lemma natlist_eqb_eq a : forall b, natlist_eqb a b = true <-> a = b.
+Proof.
+  induction a as [|x a IH]; destruct b as [|y b]; cbn; split; intro H; try reflexivity; try discriminate H.
+  - apply andb_true_iff in H. destruct H as [H1 H2]. apply Nat.eqb_eq in H1. apply IH in H2. subst. reflexivity.
+  - inversion H; subst. rewrite Nat.eqb_refl. cbn. apply IH. reflexivity.
+Qed.
+Lemma nlist_eqb_refl a : nlist_eqb a a = true.
+Proof. induction a as [|x a IH]; cbn; [reflexivity|]. rewrite N.eqb_refl. exact IH. Qed.
+
+Lemma count_seq i : forall n a, count_if (Nat.eqb i) (seq a n) = b2n (Nat.leb a i && Nat.ltb i (a + n)).
+Proof.
+  induction n as [|n IH]; intro a; cbn [seq].
+  - rewrite count_if_nil. destruct (Nat.leb_spec a i), (Nat.ltb_spec i (a + 0)); cbn; try reflexivity; lia.
+  - rewrite count_if_cons, IH.
+    destruct (Nat.eqb_spec i a), (Nat.leb_spec a i), (Nat.leb_spec (S a) i), (Nat.ltb_spec i (a + S n)), (Nat.ltb_spec i (S a + n));
+      cbn; try reflexivity; lia.
+Qed.
+
+Lemma is_perm_ids_sound n ord : is_perm_ids n ord = true -> Permutation ord (seq 0 n).
+Proof.
+  unfold is_perm_ids. rewrite andb_true_iff, forallb_forall. intros [L F]. apply Nat.eqb_eq in L.
+  apply Permutation_sym. apply NoDup_Permutation_bis; [apply seq_NoDup | rewrite seq_length; lia |].
+  intros i Hi. specialize (F i Hi). apply N.eqb_eq in F.
+  unfold count_if in F. destruct (filter (Nat.eqb i) ord) as [|x r] eqn:E; [discriminate F|].
+  assert (Hx : In x (filter (Nat.eqb i) ord)) by (rewrite E; left; reflexivity).
+  apply filter_In in Hx. destruct Hx as [Hx He]. apply Nat.eqb_eq in He. subst. exact Hx.
+Qed.
+
+Lemma count_unique (p : test -> bool) : forall ts t, NoDup (map t_id ts) -> In t ts ->
+  count_if (fun t' => Nat.eqb (t_id t) (t_id t') && p t') ts = b2n (p t).
+Proof.
+  induction ts as [|x ts IH]; intros t ND Hin; [destruct Hin|]. cbn [map] in ND. inversion ND as [|? ? Hn ND']; subst.
+  rewrite count_if_cons. destruct Hin as [->|Hin].
+  - rewrite Nat.eqb_refl. cbn [andb].
+    assert (Z : count_if (fun t' => Nat.eqb (t_id t) (t_id t') && p t') ts = 0).
+    { rewrite (count_if_ext _ (fun _ => false)).
+      - clear. induction ts as [|y ts IH]; [reflexivity|]. rewrite count_if_cons, IH. reflexivity.
+      - intros y Hy. destruct (Nat.eqb_spec (t_id t) (t_id y)); [|reflexivity]. exfalso. apply Hn. rewrite e. apply in_map. exact Hy. }
+    rewrite Z. lia.
+  - rewrite (IH t ND' Hin). destruct (Nat.eqb_spec (t_id t) (t_id x)); [|cbn; lia].
+    exfalso. apply Hn. rewrite <- e. apply in_map. exact Hin.
+Qed.
+
+Lemma count_partition {A} (p q r : A -> bool) l : (forall x, In x l -> b2n (p x) + b2n (q x) + b2n (r x) = 1) ->
+  N.of_nat (length l) = count_if p l + count_if q l + count_if r l.
+Proof.
+  induction l as [|x l IH]; intro H; [reflexivity|]. rewrite !count_if_cons. cbn [length]. rewrite Nat2N.inj_succ.
+  rewrite IH by (intros y Hy; apply H; right; exact Hy). specialize (H x (or_introl eq_refl)). lia.
+Qed.
+
+Lemma count_body_occ id w : count_body id w = occurrences (EBody id) w.
+Proof.
+  unfold count_body, occurrences, count_if. f_equal. f_equal. apply filter_ext. intros [| | |i| | |]; try reflexivity.
+  cbn. apply Nat.eqb_sym.
+Qed.
+
+Lemma occ_word e evs : e <> ETestsStarted -> e <> ETestsEnded ->
+  occurrences e (ETestsStarted :: evs ++ [ETestsEnded]) = occurrences e evs.
+Proof.
+  intros H1 H2. unfold occurrences. rewrite count_if_cons, count_if_app, count_if_cons, count_if_nil.
+  destruct e; try congruence; cbn; lia.
+Qed.
+
+Ltac split_andb H :=
+  repeat match type of H with
+  | (_ && _) = true => let H1 := fresh H in apply andb_true_iff in H; destruct H as [H H1]
+  end.
+
+Section Runner.
+Variable s : scenario.
+Hypothesis V : valid s = true.
+Let ts := s_tests s.
+Let n := length (s_tests s).
+
+Lemma valid_parts : natlist_eqb (map t_id ts) (seq 0 n) = true /\ forallb test_ok ts = true
+  /\ forallb filter_ok (s_gf s) = true /\ forallb filter_ok (s_nf s) = true.
+Proof.
+  pose proof V as W. unfold valid in W.
+  apply andb_true_iff in W. destruct W as [W _]. apply andb_true_iff in W. destruct W as [W _].
+  apply andb_true_iff in W. destruct W as [W D]. apply andb_true_iff in W. destruct W as [W C].
+  apply andb_true_iff in W. destruct W as [A B]. repeat split; assumption.
+Qed.
+Lemma valid_ids : map t_id ts = seq 0 n.
+Proof. apply natlist_eqb_eq. apply valid_parts. Qed.
+Lemma valid_tests : forall t, In t ts -> test_ok t = true.
+Proof. apply forallb_forall. apply valid_parts. Qed.
+Lemma valid_filters : filters_ok s.
+Proof. split; apply valid_parts. Qed.
+Lemma valid_nodup : NoDup (map t_id ts).
+Proof. rewrite valid_ids. apply seq_NoDup. Qed.
+
+Lemma exec_eq t : In t ts -> m_exec (s_gf s) (s_nf s) (s_ri s) t = executes s t.
+Proof.
+  intro H. unfold m_exec, executes, m_ign. rewrite (should_run_selected s t valid_filters (valid_tests t H)).
+  destruct (selected s t), (t_ignored t), (s_ri s); reflexivity.
+Qed.
+Lemma cign_eq t : In t ts -> m_cign (s_gf s) (s_nf s) (s_ri s) t = counted_ignored s t.
+Proof.
+  intro H. unfold m_cign, counted_ignored, m_ign. rewrite (should_run_selected s t valid_filters (valid_tests t H)).
+  destruct (selected s t), (t_ignored t), (s_ri s); reflexivity.
+Qed.
+
+Definition expected_order : list nat := if s_rev s then seq 0 n else rev (seq 0 n).
+
+Lemma rep_ok_of_perm reg seeds drawn :
+  Permutation reg ts -> (s_shuffle s = false -> map t_id reg = expected_order) ->
+  let '(w, k) := run_all_tests (s_gf s) (s_nf s) (s_ri s) reg in
+  rep_ok s (mkRep (map t_id reg) seeds drawn w k) = true.
+Proof.
+  intros P O. unfold run_all_tests. rewrite run_loop_split.
+  pose proof (fold_counters (s_gf s) (s_nf s) (s_ri s) reg cnt0) as C. cbn zeta in C. destruct C as [C1 [C2 [C3 C4]]].
+  set (k := fold_left (step_counters (s_gf s) (s_nf s) (s_ri s)) reg cnt0) in *.
+  set (evs := events_of (s_gf s) (s_nf s) (s_ri s) reg true).
+  assert (Ln : length reg = n) by (apply Permutation_length; exact P).
+  assert (Hin : forall t, In t reg <-> In t ts) by (intro t; split; apply Permutation_in; [|apply Permutation_sym]; exact P).
+  assert (Q1 : c_tests k = N.of_nat n) by (rewrite C1, Ln; cbn; lia).
+  assert (Q2 : c_run k = count_if (executes s) ts).
+  { rewrite C2. cbn [c_run cnt0]. rewrite (count_if_perm _ _ _ P). rewrite (count_if_ext _ (executes s)); [lia|]. intros; apply exec_eq; assumption. }
+  assert (Q3 : c_ign k = count_if (counted_ignored s) ts).
+  { rewrite C3. cbn [c_ign cnt0]. rewrite (count_if_perm _ _ _ P). rewrite (count_if_ext _ (counted_ignored s)); [lia|]. intros; apply cign_eq; assumption. }
+  assert (Q4 : c_filt k = count_if (fun t => negb (selected s t)) ts).
+  { rewrite C4. cbn [c_filt cnt0]. rewrite (count_if_perm _ _ _ P).
+    rewrite (count_if_ext _ (fun t => negb (selected s t))); [lia|].
+    intros t Ht. rewrite (should_run_selected s t valid_filters (valid_tests t Ht)). reflexivity. }
+  unfold rep_ok. cbn [r_order r_word r_cnt]. fold ts. fold n.
+  repeat match goal with |- (_ && _) = true => apply andb_true_iff; split end.
+  - (* permutation *)
+    unfold is_perm_ids. rewrite map_length, Ln, Nat.eqb_refl. cbn [andb]. apply forallb_forall. intros i Hi. apply N.eqb_eq.
+    rewrite (count_if_perm _ _ _ (Permutation_map t_id P)). rewrite valid_ids. rewrite count_seq.
+    apply in_seq in Hi. replace (Nat.leb 0 i && Nat.ltb i (0 + n)) with true; [reflexivity|].
+    symmetry. apply andb_true_iff. unfold n, ts in *. split; [apply Nat.leb_le; lia | apply Nat.ltb_lt; lia].
+  - (* reverse / plain order *)
+    destruct (s_shuffle s); [reflexivity|]. cbn [orb]. apply natlist_eqb_eq. apply O. reflexivity.
+  - (* shape *)
+    unfold word_shape. rewrite rev_unit. rewrite rev_involutive.
+    pose proof (balanced_events (s_gf s) (s_nf s) (s_ri s) n reg true []) as B. rewrite app_nil_r in B. cbn [balanced_from] in B.
+    apply B; [|reflexivity]. apply Forall_forall. intros t Ht. apply Hin in Ht.
+    assert (I : In (t_id t) (map t_id ts)) by (apply in_map; exact Ht). rewrite valid_ids in I. apply in_seq in I. lia.
+  - (* exactly once *)
+    apply forallb_forall. intros t Ht. apply andb_true_iff. split; apply N.eqb_eq.
+    + rewrite occ_word by discriminate. unfold evs. rewrite occ_started. rewrite (count_if_perm _ _ _ P).
+      rewrite (count_unique _ ts t valid_nodup Ht). rewrite (should_run_selected s t valid_filters (valid_tests t Ht)). reflexivity.
+    + rewrite occ_word by discriminate. unfold evs. rewrite occ_body. rewrite (count_if_perm _ _ _ P).
+      rewrite (count_unique _ ts t valid_nodup Ht). rewrite exec_eq by assumption. reflexivity.
+  - apply N.eqb_eq. exact Q1.
+  - apply N.eqb_eq. rewrite Q1, Q2, Q3, Q4. unfold n. fold ts. apply count_partition.
+    intros t _. unfold executes, counted_ignored. destruct (selected s t), (t_ignored t), (s_ri s); reflexivity.
+  - apply N.eqb_eq. exact Q2.
+  - apply N.eqb_eq. exact Q3.
+  - apply N.eqb_eq. exact Q4.
+Qed.
+
+Lemma repeat_loop_ok : forall m reg,
+  Permutation reg ts -> (s_shuffle s = false -> map t_id reg = expected_order) ->
+  exists reps, repeat_loop s m reg = Some reps /\ length reps = m /\ forallb (rep_ok s) reps = true.
+Proof.
+  induction m as [|m IH]; intros reg P O; cbn [repeat_loop].
+  - exists []. repeat split.
+  - destruct (s_shuffle s) eqn:Sh.
+    + destruct (shuffle_ok (s_seed s) (s_rands s) reg) as [l [seeds [drawn [E [Pl _]]]]]. rewrite E.
+      assert (P' : Permutation l ts) by (eapply Permutation_trans; eassumption).
+      assert (O' : s_shuffle s = false -> map t_id l = expected_order) by (rewrite Sh; discriminate).
+      assert (O2 : true = false -> map t_id l = expected_order) by discriminate.
+      pose proof (rep_ok_of_perm l seeds drawn P' O') as R.
+      destruct (run_all_tests (s_gf s) (s_nf s) (s_ri s) l) as [w k].
+      destruct (IH l P' O2) as [reps [E' [L' F']]]. rewrite E'.
+      eexists. split; [reflexivity|]. split; [cbn; lia|]. cbn [forallb]. rewrite R, F'. reflexivity.
+    + assert (O1 : s_shuffle s = false -> map t_id reg = expected_order) by (intros _; apply O; reflexivity).
+      pose proof (rep_ok_of_perm reg [] [] P O1) as R.
+      destruct (run_all_tests (s_gf s) (s_nf s) (s_ri s) reg) as [w k].
+      destruct (IH reg P O) as [reps [E' [L' F']]]. rewrite E'.
+      eexists. split; [reflexivity|]. split; [cbn; lia|]. cbn [forallb]. rewrite R, F'. reflexivity.
+Qed.
+
+Lemma rep_ok_once r : rep_ok s r = true -> forall t, In t ts -> occurrences (EBody (t_id t)) (r_word r) = b2n (executes s t).
+Proof.
+  unfold rep_ok. intros R t Ht.
+  do 5 (apply andb_true_iff in R; destruct R as [R _]). apply andb_true_iff in R. destruct R as [_ R].
+  rewrite forallb_forall in R. specialize (R t Ht). apply andb_true_iff in R. destruct R as [_ B]. apply N.eqb_eq in B. exact B.
+Qed.
+
+Lemma totals_ok reps : forallb (rep_ok s) reps = true ->
+  totals n reps = map (fun t => N.of_nat (length reps) * b2n (executes s t)) ts.
+Proof.
+  intro F. unfold totals. rewrite <- valid_ids. rewrite map_map. apply map_ext_in. intros t Ht.
+  induction reps as [|r reps IH]; [cbn; lia|]. cbn [forallb] in F. apply andb_true_iff in F. destruct F as [R F].
+  cbn [fold_right length]. rewrite (IH F). rewrite Nat2N.inj_succ.
+  pose proof (rep_ok_once r R t Ht) as B. rewrite count_body_occ, B. lia.
+Qed.
+
+Lemma start_order : exists reg1, (if s_rev s then reverse (registry_of ts) else Some (registry_of ts)) = Some reg1
+  /\ Permutation reg1 ts /\ map t_id reg1 = expected_order.
+Proof.
+  rewrite registry_of_rev. unfold expected_order. destruct (s_rev s).
+  - rewrite reverse_ok. rewrite rev_involutive. exists ts. repeat split; [apply Permutation_refl | apply valid_ids].
+  - exists (rev ts). repeat split; [apply Permutation_sym, Permutation_rev | rewrite map_rev, valid_ids; reflexivity].
+Qed.
+
+Lemma run_opt_ok : exists reps, run_opt s = Some (mkObs reps (totals n reps)) /\ length reps = s_repeat s
+  /\ forallb (rep_ok s) reps = true.
+Proof.
+  unfold run_opt. fold ts. destruct start_order as [reg1 [E [P O]]]. rewrite E.
+  destruct (repeat_loop_ok (s_repeat s) reg1 P (fun _ => O)) as [reps [E' [L F]]]. rewrite E'.
+  exists reps. repeat split; assumption.
+Qed.
+
+Lemma run_meets_spec_s : spec s (run s) = true.
+Proof.
+  unfold run. destruct run_opt_ok as [reps [E [L F]]]. rewrite E. unfold spec. cbn [o_reps o_totals].
+  rewrite L, Nat.eqb_refl, F. cbn [andb]. rewrite (totals_ok reps F). rewrite L. apply nlist_eqb_refl.
+Qed.
+End Runner.
+
+Lemma run_meets_spec : forall s, valid s = true -> spec s (run s) = true.
+Proof. exact run_meets_spec_s. Qed.
+
+(* ================================================================== Part E: the statements exported by Properties_C02.v *)
+Local Open Scope N_scope.
+
+(* counters: for any list order, any filters *)
+Lemma counts_identity gf nf ri l :
+  let k := snd (run_all_tests gf nf ri l) in
+  c_tests k = N.of_nat (length l) /\ c_tests k = c_run k + c_ign k + c_filt k
+  /\ c_run k = count_if (m_exec gf nf ri) l /\ c_ign k = count_if (m_cign gf nf ri) l
+  /\ c_filt k = count_if (fun t => negb (should_run gf nf t)) l.
+Proof.
+  unfold run_all_tests. rewrite run_loop_split. cbn [snd].
+  pose proof (fold_counters gf nf ri l cnt0) as C. cbn zeta in C. destruct C as [C1 [C2 [C3 C4]]].
+  cbn [cnt0 c_tests c_run c_ign c_filt] in *. rewrite C1, C2, C3, C4. rewrite !N.add_0_l. repeat split.
+  apply count_partition. intros t _. unfold m_exec, m_cign. destruct (should_run gf nf t), (m_ign ri t); reflexivity.
+Qed.
+
+Lemma run_counts_identity s : valid s = true ->
+  length (o_reps (run s)) = s_repeat s /\
+  forall r, In r (o_reps (run s)) ->
+    c_tests (r_cnt r) = N.of_nat (length (s_tests s)) /\ c_tests (r_cnt r) = c_run (r_cnt r) + c_ign (r_cnt r) + c_filt (r_cnt r)
+    /\ Permutation (r_order r) (seq 0 (length (s_tests s))).
+Proof.
+  intro V. unfold run. destruct (run_opt_ok s V) as [reps [E [L F]]]. rewrite E. cbn [o_reps]. split; [exact L|].
+  intros r Hr. rewrite forallb_forall in F. specialize (F r Hr). unfold rep_ok in F.
+  do 3 (apply andb_true_iff in F; destruct F as [F _]). apply andb_true_iff in F. destruct F as [F Q2]. apply andb_true_iff in F. destruct F as [F Q1].
+  do 3 (apply andb_true_iff in F; destruct F as [F _]).
+  apply N.eqb_eq in Q1. apply N.eqb_eq in Q2. repeat split; try assumption. apply is_perm_ids_sound. exact F.
+Qed.
+
+(* exactly once: for any order in which every test occurs once *)
+Lemma exactly_once gf nf ri l : NoDup (map t_id l) ->
+  let w := fst (run_all_tests gf nf ri l) in
+  (forall t, In t l -> occurrences (ETestStarted (t_id t)) w = b2n (should_run gf nf t)
+                       /\ occurrences (EBody (t_id t)) w = b2n (m_exec gf nf ri t))
+  /\ (forall i, ~ In i (map t_id l) -> occurrences (ETestStarted i) w = 0 /\ occurrences (EBody i) w = 0).
+Proof.
+  intro ND. unfold run_all_tests. rewrite run_loop_split. cbn [fst]. split.
+  - intros t Ht. rewrite !occ_word by discriminate. rewrite occ_started, occ_body.
+    rewrite (count_unique _ l t ND Ht), (count_unique _ l t ND Ht). split; reflexivity.
+  - intros i Hi. rewrite !occ_word by discriminate. rewrite occ_started, occ_body.
+    assert (Z : forall p, count_if (fun t => Nat.eqb i (t_id t) && p t) l = 0).
+    { intro p. rewrite (count_if_ext _ (fun _ => false)).
+      - clear. induction l as [|y l IH]; [reflexivity|]. rewrite count_if_cons, IH. reflexivity.
+      - intros y Hy. destruct (Nat.eqb_spec i (t_id y)); [|reflexivity]. exfalso. apply Hi. subst i. apply in_map. exact Hy. }
+    rewrite !Z. split; reflexivity.
+Qed.
+
+(* shuffle: a permutation for every rand stream, every seed, every list; never indexes outside the array *)
+Lemma shuffle_perm {A} seed rs (a : list A) :
+  exists l seeds drawn, shuffle seed rs a = Some (l, seeds, drawn)
+    /\ Permutation l a /\ length l = length a /\ (NoDup a -> NoDup l) /\ length drawn = (length a - 1)%nat.
+Proof.
+  destruct (shuffle_ok seed rs a) as [l [seeds [drawn [E [P D]]]]]. exists l, seeds, drawn.
+  repeat split; try assumption.
+  - apply Permutation_length. exact P.
+  - intro ND. eapply Permutation_NoDup; [apply Permutation_sym; exact P | exact ND].
+Qed.
+
+(* group notifications: balanced for any order of tests *)
+Lemma groups_balanced gf nf ri l n : (forall t, In t l -> (t_id t < n)%nat) ->
+  word_shape n (fst (run_all_tests gf nf ri l)) = true.
+Proof.
+  intro H. unfold run_all_tests. rewrite run_loop_split. cbn [fst]. unfold word_shape. rewrite rev_unit, rev_involutive.
+  pose proof (balanced_events gf nf ri n l true []) as B. rewrite app_nil_r in B. cbn [balanced_from] in B.
+  apply B; [|reflexivity]. apply Forall_forall. exact H.
+Qed.
+
+(* what the automaton accepts, as a grammar: (GS (TS B? TE)* GE)* with B naming the started test *)
+Inductive TestSeg : list event -> Prop :=
+| seg_skipped i : TestSeg [ETestStarted i; ETestEnded]
+| seg_ran i : TestSeg [ETestStarted i; EBody i; ETestEnded].
+Inductive GroupBody : list event -> Prop :=
+| gb_nil : GroupBody []
+| gb_cons seg rest : TestSeg seg -> GroupBody rest -> GroupBody (seg ++ rest).
+Inductive Groups : list event -> Prop :=
+| gr_nil : Groups []
+| gr_cons g body rest : GroupBody body -> Groups rest -> Groups (EGroupStarted g :: body ++ EGroupEnded :: rest).
+
+Lemma balanced_sound_aux n : forall m w, (length w <= m)%nat ->
+  (balanced_from n WOut w = true -> Groups w) /\
+  (balanced_from n WGroup w = true -> exists body rest, w = body ++ EGroupEnded :: rest /\ GroupBody body /\ Groups rest).
+Proof.
+  induction m as [|m IH]; intros w L.
+  - destruct w; [|cbn in L; lia]. split; [intros _; constructor | intro H; discriminate H].
+  - split.
+    + destruct w as [|e w]; [intros _; constructor|]. destruct e; cbn [balanced_from]; try (intro H; discriminate H).
+      intro H. apply andb_true_iff in H. destruct H as [_ H]. cbn in L.
+      destruct (IH w ltac:(lia)) as [_ I]. destruct (I H) as [body [rest [-> [GB GR]]]]. constructor; assumption.
+    + destruct w as [|e w]; [intro H; discriminate H|]. cbn in L. destruct e; cbn [balanced_from]; try (intro H; discriminate H).
+      * (* TestStarted *) intro H. apply andb_true_iff in H. destruct H as [_ H].
+        destruct w as [|e2 w]; [discriminate H|]. cbn in L. destruct e2; cbn [balanced_from] in H; try discriminate H.
+        -- (* Body *) apply andb_true_iff in H. destruct H as [Hid H]. apply Nat.eqb_eq in Hid. subst id0.
+           destruct w as [|e3 w]; [discriminate H|]. cbn in L. destruct e3; cbn [balanced_from] in H; try discriminate H.
+           destruct (IH w ltac:(lia)) as [_ I]. destruct (I H) as [body [rest [-> [GB GR]]]].
+           exists ([ETestStarted id; EBody id; ETestEnded] ++ body), rest. split; [reflexivity|]. split; [|exact GR].
+           apply gb_cons; [constructor | exact GB].
+        -- (* TestEnded *) destruct (IH w ltac:(lia)) as [_ I]. destruct (I H) as [body [rest [-> [GB GR]]]].
+           exists ([ETestStarted id; ETestEnded] ++ body), rest. split; [reflexivity|]. split; [|exact GR].
+           apply gb_cons; [constructor | exact GB].
+      * (* GroupEnded *) intro H. destruct (IH w ltac:(lia)) as [I _]. exists [], w. split; [reflexivity|]. split; [constructor | apply I; exact H].
+Qed.
+Lemma balanced_sound n w : balanced_from n WOut w = true -> Groups w.
+Proof. intro H. destruct (balanced_sound_aux n (length w) w (le_n _)) as [I _]. apply I. exact H. Qed.
+
+Lemma word_shape_sound n w : word_shape n w = true -> exists mid, w = ETestsStarted :: mid ++ [ETestsEnded] /\ Groups mid.
+Proof.
+  unfold word_shape. destruct w as [|e r]; [discriminate|]. destruct e; try discriminate.
+  destruct (rev r) as [|e2 m] eqn:E; [discriminate|]. destruct e2; try discriminate. intro H.
+  exists (rev m). split; [|eapply balanced_sound; exact H].
+  f_equal. rewrite <- (rev_involutive r), E. cbn [rev]. reflexivity.
+Qed.
+
+Lemma groups_balanced_grammar gf nf ri l n : (forall t, In t l -> (t_id t < n)%nat) ->
+  exists mid, fst (run_all_tests gf nf ri l) = ETestsStarted :: mid ++ [ETestsEnded] /\ Groups mid.
+Proof. intro H. apply (word_shape_sound n). apply groups_balanced. exact H. Qed.
+
+(* ---------------- examples: the hypotheses are satisfiable by non-trivial scenarios *)
+Definition ex_tests : list test :=
+  [mkTest 0 [97;98] [97] false; mkTest 1 [97;98] [98] true; mkTest 2 [99] [97;98] false; mkTest 3 [99] [99] false; mkTest 4 [97;98] [97;97] false].
+Definition ex_scn : scenario :=
+  mkScn ex_tests [mkFilter [97] false false] [mkFilter [99] true true] false true true 7 [3; 0; 5; 1] 2%nat 1 false.
+Example ex_valid : valid ex_scn = true.
+Proof. vm_compute. reflexivity. Qed.
+Example ex_orders : map r_order (o_reps (run ex_scn)) = [[4; 1; 2; 0; 3]; [3; 1; 2; 4; 0]]%nat.
+Proof. vm_compute. reflexivity. Qed.
+Example ex_counters : map r_cnt (o_reps (run ex_scn)) = [mkCnt 5 2 1 2; mkCnt 5 2 1 2] /\ o_totals (run ex_scn) = [2; 0; 0; 0; 2].
+Proof. vm_compute. split; reflexivity. Qed.
+Example ex_spec : spec ex_scn (run ex_scn) = true.
+Proof. vm_compute. reflexivity. Qed.
+Example ex_selection : should_run (s_gf ex_scn) (s_nf ex_scn) (mkTest 0 [97;98] [97] false) = true
+                       /\ should_run (s_gf ex_scn) (s_nf ex_scn) (mkTest 3 [99] [99] false) = false.
+Proof. vm_compute. split; reflexivity. Qed.
+Example ex_shuffle : shuffle 7 [3; 0; 5; 1] [10; 11; 12; 13; 14]%nat = Some ([14; 11; 12; 10; 13]%nat, [7], [3; 0; 5; 1]).
+Proof. vm_compute. reflexivity. Qed.
+Example ex_reverse : reverse [1; 2; 3; 4; 5]%nat = Some [5; 4; 3; 2; 1]%nat /\ relink [1; 2; 3]%nat = Some [1; 2; 3]%nat.
+Proof. vm_compute. split; reflexivity. Qed.
+Example ex_nodup : NoDup (map t_id ex_tests) /\ forall t, In t ex_tests -> (t_id t < 5)%nat.
+Proof. split; [vm_compute; repeat constructor; cbn; intuition discriminate|]. intros t H. cbn in H. intuition (subst; cbn; lia). Qed.
